@@ -116,12 +116,61 @@ func LZWEncode(data []byte, opt LZWOptions) []byte {
 	return bw.buf
 }
 
+// LZWPrefixCodes returns, for every prefix length n = 0..len(data), the
+// number of data codes between the last clear-table code and EOD in the code
+// stream an encoder which clears only when the table is full writes for
+// data[:n], and the number of such clears.  (The phrase structure of LZW
+// does not depend on EarlyChange; the point at which the table is full does.)
+func LZWPrefixCodes(data []byte, earlyChange bool) (tail []int, clears []int) {
+	early := 0
+	if earlyChange {
+		early = 1
+	}
+	tail = make([]int, len(data)+1)
+	clears = make([]int, len(data)+1)
+	table := map[string]int{}
+	next := lzwFirst
+	emitted, nclear := 0, 0
+	var w []byte
+	for i, c := range data {
+		wc := append(append([]byte{}, w...), c)
+		if _, ok := table[string(wc)]; ok || len(wc) == 1 {
+			w = wc
+		} else {
+			emitted++
+			table[string(wc)] = next
+			next++
+			w = []byte{c}
+			if next-1+early == 4095 {
+				table = map[string]int{}
+				next = lzwFirst
+				emitted = 0
+				nclear++
+			}
+		}
+		tail[i+1] = emitted + 1 // the pending phrase is written at the end
+		clears[i+1] = nclear
+	}
+	return tail, clears
+}
+
 // LZWStats describes what a code stream exercised.
 type LZWStats struct {
 	MaxWidth int // widest code read (9..12)
 	Clears   int // clear-table codes other than a leading one
 	Codes    int
 	Widths   [13]int // number of codes read at each width
+
+	// the end of the stream
+	TailCodes     int // data codes between the last clear-table code and EOD
+	LastDataWidth int // width of the last data code (0: none)
+	EODWidth      int // width of the EOD code
+}
+
+// EODAtWidthBoundary reports whether the last data code was the one which
+// made the code width grow, so that EOD is the first code of the new width.
+func (st LZWStats) EODAtWidthBoundary() bool {
+	return st.TailCodes > 0 && st.EODWidth > st.LastDataWidth
 }
 
 // LZWDecode is the reference decoder.  The stream must end with EOD.
@@ -164,8 +213,10 @@ func LZWDecode(enc []byte, earlyChange bool) ([]byte, LZWStats, error) {
 			width = 9
 			next = lzwFirst
 			prev = nil
+			st.TailCodes, st.LastDataWidth = 0, 0
 			continue
 		case code == lzwEOD:
+			st.EODWidth = int(width)
 			if rest := total - pos; rest >= 8 {
 				return out, st, fmt.Errorf("lzw: %d bytes after the EOD code", rest/8)
 			}
@@ -183,6 +234,8 @@ func LZWDecode(enc []byte, earlyChange bool) ([]byte, LZWStats, error) {
 			return out, st, fmt.Errorf("lzw: invalid code %d (next free entry %d)", code, next)
 		}
 		out = append(out, cur...)
+		st.TailCodes++
+		st.LastDataWidth = int(width)
 		if prev != nil && next < 4096 {
 			table[next] = append(append([]byte{}, prev...), cur[0])
 			next++
